@@ -373,6 +373,6 @@ PARTS = [
          exhaustive_note="all ordered pairs of ranges on 0..N, each with every third range"),
     Part("illformed", check_illformed, enumerate=enum_illformed,
          exhaustive_note="box of (index,line,column) and all (start,end) index pairs"),
-    Part("origins", check_origins, strategy=st_origins, quick=2400, thorough=160000),
-    Part("get_raw", check_get_raw, strategy=st_get_raw, quick=1200, thorough=48000),
+    Part("origins", check_origins, strategy=st_origins, quick=9600, thorough=320000),
+    Part("get_raw", check_get_raw, strategy=st_get_raw, quick=4000, thorough=96000),
 ]
